@@ -135,4 +135,59 @@ def matrixMultiply (r M : List α) : List α :=
     let row := i / 3; let col := i % 3
     el r row * el M col + el r (row + 3) * el M (col + 3) + el r (row + 6) * el M (col + 6)
 
+/-! ## The matrix-returning forms, degrees, `Rotate`/`Unrotate`, `Reset` -/
+
+/-- `Math::atan2d(y, x)` as a kernel: the argument of the point `(x, y)` in degrees (that the octant scheme of the code
+computes exactly this is `Props.C16.atan2d_octant`) -/
+def atan2d (y x : α) : α := RealLike.atan2 y x * RealLike.ofNat 180 / RealLike.pi
+
+/-- `sin`/`cos` of an angle in degrees (what `Math::sincosd` computes; its quadrant scheme is `Props.C16.sincosd_quadrant`) -/
+def sind (x : α) : α := RealLike.sin (x * RealLike.pi / RealLike.ofNat 180)
+def cosd (x : α) : α := RealLike.cos (x * RealLike.pi / RealLike.ofNat 180)
+
+/-- `Geocentric::IntForward` with the matrix argument: position and `Rotation(sphi, cphi, slam, clam)` -/
+def forwardM (E : Ell α) (sphi cphi slam clam h : α) : (α × α × α) × List α :=
+  (forward E sphi cphi slam clam h, rotation sphi cphi slam clam)
+
+structure RevOut (α : Type) where
+  lat : α
+  lon : α
+  h : α
+  M : List α
+
+/-- the whole of `Geocentric::IntReverse` with the matrix argument: `lat = atan2d(sphi, cphi)`, `lon = atan2d(slam, clam)`,
+`M = Rotation(sphi, cphi, slam, clam)` with the very pair each branch produced -/
+def reverseM (E : Ell α) (maxrad : α) (X Y Z : α) : RevOut α :=
+  let rv := reverse E maxrad X Y Z
+  ⟨atan2d rv.sphi rv.cphi, atan2d rv.slam rv.clam, rv.h, rotation rv.sphi rv.cphi rv.slam rv.clam⟩
+
+/-- `Geocentric::Rotate`: `M·(x, y, z)ᵀ` (local → geocentric) -/
+def rotate (M : List α) (x y z : α) : α × α × α :=
+  (el M 0 * x + el M 1 * y + el M 2 * z,
+   el M 3 * x + el M 4 * y + el M 5 * z,
+   el M 6 * x + el M 7 * y + el M 8 * z)
+
+/-- `Geocentric::Unrotate`: `Mᵀ·(X, Y, Z)ᵀ` (geocentric → local) -/
+def unrotate (M : List α) (X Y Z : α) : α × α × α :=
+  (el M 0 * X + el M 3 * Y + el M 6 * Z,
+   el M 1 * X + el M 4 * Y + el M 7 * Z,
+   el M 2 * X + el M 5 * Y + el M 8 * Z)
+
+/-- `LocalCartesian::Reset` after `LatFix`/`AngNormalize`/`sincosd`: the origin is the forward image of `(lat0, lon0, h0)`,
+the frame is `Geocentric::Rotation` at `(lat0, lon0)` -/
+def reset (E : Ell α) (sphi cphi slam clam h0 : α) : Origin α :=
+  let P := forward E sphi cphi slam clam h0
+  ⟨P.1, P.2.1, P.2.2, rotation sphi cphi slam clam⟩
+
+/-- `LocalCartesian::IntForward` with the matrix argument -/
+def localForwardM (E : Ell α) (O : Origin α) (sphi cphi slam clam h : α) : (α × α × α) × List α :=
+  let P := forward E sphi cphi slam clam h
+  (localForward O P.1 P.2.1 P.2.2, matrixMultiply O.r (rotation sphi cphi slam clam))
+
+/-- `LocalCartesian::IntReverse` with the matrix argument -/
+def localReverseM (E : Ell α) (maxrad : α) (O : Origin α) (x y z : α) : RevOut α :=
+  let P := localReverse O x y z
+  let r := reverseM E maxrad P.1 P.2.1 P.2.2
+  ⟨r.lat, r.lon, r.h, matrixMultiply O.r r.M⟩
+
 end GeoVerif.Geocentric
